@@ -978,6 +978,10 @@ func (ex *Exec) concAtomic(op string, p *Ptr, a, b *Term) Value {
 			nv := ex.ts.IntBin("add", ex.rawLoad(p).(*Term), a)
 			ex.rawStore(p, nv)
 			return nv
+		case "swap":
+			old := copyVal(ex.rawLoad(p))
+			ex.rawStore(p, a)
+			return old
 		default:
 			old := ex.rawLoad(p).(*Term)
 			eq := ex.ts.IntCmp("eq", old, a)
@@ -1028,6 +1032,16 @@ func (ex *Exec) concAtomic(op string, p *Ptr, a, b *Term) Value {
 		ex.noteDeps(ex.addEvent(&Event{Kind: "rmw", Loc: loc, RV: rv, WV: nv, Atomic: true}), a)
 		ex.rawStore(p, nv)
 		return nv
+	case "swap":
+		markW()
+		rv := readVal()
+		old := cur
+		if rv != nil {
+			old = rv
+		}
+		ex.noteDeps(ex.addEvent(&Event{Kind: "rmw", Loc: loc, RV: rv, WV: a, Atomic: true}), a)
+		ex.rawStore(p, a)
+		return old
 	default: // cas
 		markW()
 		rv := readVal()
